@@ -113,6 +113,15 @@ def gen_case(rng: random.Random, mode: str, real_pool):
     while any(queues) and len(ops) < MAX_OPS:
         i = rng.choice([k for k in range(ns) if queues[k]])
         ops.append([i] + queues[i].pop(0))
+    # a state saved by one stream restored into another one
+    if ns >= 2 and rng.random() < 0.35:
+        for _ in range(rng.choice([1, 1, 2])):
+            t = rng.randint(1, len(ops))
+            src = [(op[0], op[2]) for op in ops[:t] if op[1] == "save"]
+            if src:
+                j, lab = rng.choice(src)
+                others = [i for i in range(ns) if i != j]
+                ops.insert(t, [rng.choice(others), "xrestore", j, lab])
     case = {"mode": mode, "seeds": seeds, "ops": ops}
     if mode == "scripted":
         used = sorted(set(seeds) | {op[2] for op in ops if op[1] == "seed"})
@@ -195,10 +204,12 @@ def canon_float(v):
     return ["bad", repr(v)]
 
 
-def apply_op(mt, saved: dict, op):
+def apply_op(mt, saved: dict, op, all_saved=None):
     """op without the stream index. Returns the canonical output."""
     kind = op[0]
     try:
+        if kind == "xrestore":
+            v = mt.restore_state(all_saved[op[1]][op[2]]); return ["none"] if v is None else ["bad", repr(v)]
         if kind == "f":
             return canon_float(mt.next_float())
         if kind == "i":
@@ -232,7 +243,7 @@ def run_impl(case, table=None):
     table = table if table is not None else case_table(case)
     streams = [make_stream(case, table, s) for s in case["seeds"]]
     saved = [dict() for _ in streams]
-    return [apply_op(streams[op[0]], saved[op[0]], op[1:]) for op in case["ops"]]
+    return [apply_op(streams[op[0]], saved[op[0]], op[1:], saved) for op in case["ops"]]
 
 
 def run_single(case, table, seed, ops):
@@ -301,6 +312,10 @@ def tracked(case, outs, table, positions: bool):
             if o != ["none"]:
                 return ("restore-of-saved-state-refused", f"op #{t} {op}: {o}")
             st["seed"], st["pos"] = st["saved"][op[2]]
+        elif kind == "xrestore":
+            if o != ["none"]:
+                return ("restore-of-saved-state-refused", f"op #{t} {op}: {o}")
+            st["seed"], st["pos"] = state[op[2]]["saved"][op[3]]
         elif kind == "qseed":
             if positions and o != ["seed", st["cur"]]:
                 return ("seed-query-wrong", f"op #{t}: seed() returned {o}, current seed is {st['cur']}")
@@ -327,7 +342,10 @@ def oracle(case, outs):
     if bad:
         return bad
     # (a) twins / independence: every stream alone, fresh object, same requests
+    local = [not any(op[0] == "xrestore" for _, op in proj[i]) for i in range(ns)]
     for i in range(ns):
+        if not local[i]:
+            continue
         alone = run_single(case, table, seeds[i], [op for _, op in proj[i]])
         mine = [outs[t] for t, _ in proj[i]]
         if alone != mine:
@@ -337,7 +355,7 @@ def oracle(case, outs):
                     f"but {alone[d]} when a fresh stream with the same seed gets the same requests alone")
     for i in range(ns):
         for j in range(i + 1, ns):
-            if seeds[i] == seeds[j] and [op for _, op in proj[i]] == [op for _, op in proj[j]]:
+            if local[i] and seeds[i] == seeds[j] and [op for _, op in proj[i]] == [op for _, op in proj[j]]:
                 a, b = [outs[t] for t, _ in proj[i]], [outs[t] for t, _ in proj[j]]
                 if a != b:
                     return ("twin-streams-differ", f"streams {i} and {j} (seed {seeds[i]}, same requests) answered {a} vs {b}")
@@ -352,7 +370,8 @@ def oracle(case, outs):
             if op[0] in ("reset", "seed"):
                 tail, labs = [], set()
                 for q in reqs[n + 1:]:
-                    if q[0] == "qorig" or (q[0] == "restore" and q[1] not in labs) or (op[0] == "seed" and q[0] == "reset"):
+                    if (q[0] in ("qorig", "xrestore") or (q[0] == "restore" and q[1] not in labs)
+                            or (op[0] == "seed" and q[0] == "reset")):
                         break
                     if q[0] == "save":
                         labs.add(q[1])
@@ -364,7 +383,7 @@ def oracle(case, outs):
                         sig = "reset-does-not-replay-current-seed" if op[0] == "reset" else "set-seed-does-not-reseed"
                         return (sig, f"stream {i}: after request #{n} {op} (current seed {cur}) the requests {tail} were answered "
                                      f"{got}; a new stream with seed {cur} answers {fresh}")
-            if op[0] == "restore":
+            if op[0] == "restore" and not any(q[0] == "xrestore" for q in reqs[:n]):
                 m = next(x for x in range(n) if reqs[x] == ["save", op[1]])
                 tail = []
                 for q in reqs[n + 1:]:
@@ -378,6 +397,30 @@ def oracle(case, outs):
                         return ("restore-does-not-continue-as-after-save",
                                 f"stream {i}: state saved at request #{m}, restored at #{n}; the draws {tail} then gave {got}, "
                                 f"directly after the save they give {ref}")
+    # (c') a state saved by stream j restored into stream i: i continues as j did after the save
+    for i in range(ns):
+        reqs = [op for _, op in proj[i]]
+        mine = [outs[t] for t, _ in proj[i]]
+        for n, op in enumerate(reqs):
+            if op[0] != "xrestore":
+                continue
+            j = op[1]
+            jreqs = [q for _, q in proj[j]]
+            m = next(x for x in range(len(jreqs)) if jreqs[x] == ["save", op[2]])
+            if any(q[0] == "xrestore" for q in jreqs[:m]):
+                continue
+            tail = []
+            for q in reqs[n + 1:]:
+                if q[0] not in DRAWS:
+                    break
+                tail.append(q)
+            if tail:
+                ref = run_single(case, table, seeds[j], jreqs[:m + 1] + tail)[m + 1:]
+                got = mine[n + 1:n + 1 + len(tail)]
+                if ref != got:
+                    return ("restore-into-other-stream-does-not-continue-as-after-save",
+                            f"state saved by stream {j} (its request #{m}) restored into stream {i}; the draws {tail} then gave {got}, "
+                            f"directly after the save stream {j} gives {ref}")
     return tracked(case, outs, table, positions=True)
 
 
@@ -409,12 +452,14 @@ def shrink(case, failing):
             drop = {t}
             if op[1] == "save":
                 drop |= {x for x, q in enumerate(cur["ops"]) if q[0] == op[0] and q[1] == "restore" and q[2] == op[2]}
+                drop |= {x for x, q in enumerate(cur["ops"]) if q[1] == "xrestore" and q[2] == op[0] and q[3] == op[2]}
             cand = dict(cur); cand["ops"] = [q for x, q in enumerate(cur["ops"]) if x not in drop]
             if cand["ops"] and failing(cand):
                 cur = cand; changed = True
                 break
     # drop unused trailing streams
-    while len(cur["seeds"]) > 1 and not any(op[0] == len(cur["seeds"]) - 1 for op in cur["ops"]):
+    while len(cur["seeds"]) > 1 and not any(op[0] == len(cur["seeds"]) - 1 or (op[1] == "xrestore" and op[2] == len(cur["seeds"]) - 1)
+                                            for op in cur["ops"]):
         cand = dict(cur); cand["seeds"] = cur["seeds"][:-1]
         if failing(cand):
             cur = cand
@@ -464,6 +509,8 @@ def model_ops(case):
             ordinal[i][op[2]] = nsaves[i]; nsaves[i] += 1; m = "Save"
         elif kind == "restore":
             m = f"Restore {nsaves[i] - 1 - ordinal[i][op[2]]}%nat"
+        elif kind == "xrestore":
+            m = f"RestoreFrom {op[2]}%nat {nsaves[op[2]] - 1 - ordinal[op[2]][op[3]]}%nat"
         elif kind == "qseed":
             m = "QSeed"
         elif kind == "qorig":
@@ -543,6 +590,10 @@ CORPUS = [
      "ops": [[0, "f"], [2, "b"], [1, "f"], [0, "seed", 2 ** 64 + 5], [0, "save", "a"], [0, "i", 1, 6], [0, "f"], [1, "seed", 2 ** 64 + 5],
              [2, "reset"], [1, "save", "a"], [1, "i", 1, 6], [1, "f"], [0, "restore", "a"], [0, "f"], [0, "b"], [0, "reset"], [0, "f"],
              [0, "f"], [1, "restore", "a"], [1, "f"], [1, "b"], [1, "reset"], [1, "f"], [1, "f"], [2, "f"], [2, "f"]]},
+    {"mode": "real", "seeds": [0, 2 ** 70 + 3, -7],
+     "ops": [[0, "f"], [0, "f"], [0, "save", "a"], [0, "f"], [0, "i", 1, 6], [1, "b"], [1, "xrestore", 0, "a"], [1, "f"], [1, "i", 1, 6],
+             [1, "qseed"], [1, "reset"], [1, "f"], [2, "save", "z"], [0, "seed", 5], [0, "xrestore", 2, "z"], [0, "b"], [2, "b"],
+             [0, "reset"], [0, "f"]]},
 ]
 
 
@@ -624,7 +675,8 @@ def main(tier: str) -> int:
         run.violation(sig, (b or (sig, what))[1],
                       {"case": small, "impl_outputs": o,
                        "how": "streams = [MersenneTwister(s) for s in seeds]; each op is [stream index, kind, args]: f=next_float, "
-                              "i=next_int(lo,hi), b=next_bool, seed=set_seed, save/restore=save_state/restore_state (by label); "
+                              "i=next_int(lo,hi), b=next_bool, seed=set_seed, save/restore=save_state/restore_state (by label), "
+                              "xrestore j label = restore_state(state saved by stream j); "
                               "mode 'scripted': stream._random replaced by harness/c12.py:Scripted(table) then set_seed(seed)"})
 
     # ---- model vs implementation inside coqc
